@@ -160,6 +160,10 @@ func c16Inputs(thorough bool) []c16case {
 		add("asa-several-long-transform-sets", "ASA", core.Files{Main: asaIntf}, core.Files{Main: maps.String()})
 		add("ios-several-incomplete-acls", "IOS", core.Files{Main: iosIntf("Ethernet0", "10.0.0.1")}, core.Files{Main: ios.String()})
 	}
+	// ASA: several interfaces of the target unknown on the device
+	add("asa-several-unknown-interfaces", "ASA", core.Files{Main: "interface Ethernet0/0\n nameif mgmt\n"},
+		core.Files{Main: "access-list a extended permit ip any4 any4\naccess-group a in interface inside\naccess-list b extended permit ip any4 any4\naccess-group b in interface outside\n" +
+			"access-list c extended permit ip any4 any4\naccess-group c in interface dmz\n"})
 	add("linux-struct", "Linux", core.Files{Main: "*filter\n:INPUT DROP\n:a -\n:b -\n:c -\nCOMMIT\n*mangle\n:PREROUTING ACCEPT\nCOMMIT\n*nat\n:PREROUTING ACCEPT\nCOMMIT\n"},
 		core.Files{Main: "*filter\n:INPUT DROP\n:d -\n:e -\nCOMMIT\n*raw\n:PREROUTING ACCEPT\nCOMMIT\n"})
 	// PAN-OS
